@@ -29,7 +29,7 @@ ASSUMPTIONS = [
 ]
 EVAL = ['cases']
 DISTINCT = ['lru_config', 'resume_config', 'openssl_resume']
-REQUIRED = ['exhaustive_histories', 'random_histories', 'cmp_exact', 'cmp_refine', 'cmp_safety', 'cmp_struct',
+REQUIRED = ['exhaustive_histories', 'ops_by_second_server_context', 'random_histories', 'cmp_exact', 'cmp_refine', 'cmp_safety', 'cmp_struct',
             'model_evictions', 'model_recency_refreshes', 'ops_resave_domain',
             'resume_cases', 'cmp_handshake_kind', 'cmp_wire_vs_validator', 'abbreviated_checked', 'full_checked',
             'cmp_master_secret', 'cmp_randoms', 'cmp_first_record', 'data_sessions', 'expected_failures',
